@@ -68,7 +68,8 @@ pub fn run(em: &mut Emit, thorough: bool, seed: u64) {
                    "é".repeat(n), format!("a{}", "é".repeat(n)), "日".repeat(n), format!("a{}", "日".repeat(n)), format!("ab{}", "日".repeat(n)),
                    format!("{}u", "9".repeat(n)), format!("-{}", "9".repeat(n)), format!("1e{}", "9".repeat(n)),
                    format!("0.{}1", "0".repeat(n)), format!("{}.{}", "7".repeat(n), "3".repeat(n)), format!("1970-01-01T00:00:00.{}Z", "1".repeat(n)),
-                   format!("{}e-{}", "1".repeat(n), n)] {
+                   format!("{}e-{}", "1".repeat(n), n), format!("1{}s", "0".repeat(n.min(18))), format!("-2{}m", "0".repeat(n.min(17))),
+                   format!("9{}h", "0".repeat(n.min(18)))] {
             let spec = CtxSpec {
                 vars: vec![("s".into(), Value::String(Arc::new(sv.clone()))), ("t".into(), Value::String(Arc::new("s".to_string()))),
                            ("i".into(), Value::Int((n / 2) as i64))],
